@@ -506,6 +506,7 @@ func (server *SugarDB) adjustMemoryUsage(ctx context.Context) error {
 			}
 
 			key := heap.Pop(server.lfuCache.cache[database]).(string)
+			verifhook.Evict(database, key, server.memUsed, server.config.MaxMemory)
 			if !server.isInCluster() {
 				// If in standalone mode, directly delete the key
 				if err := server.deleteKey(ctx, key); err != nil {
@@ -539,6 +540,7 @@ func (server *SugarDB) adjustMemoryUsage(ctx context.Context) error {
 			}
 
 			key := heap.Pop(server.lruCache.cache[database]).(string)
+			verifhook.Evict(database, key, server.memUsed, server.config.MaxMemory)
 			if !server.isInCluster() {
 				// If in standalone mode, directly delete the key.
 				if err := server.deleteKey(ctx, key); err != nil {
@@ -579,6 +581,7 @@ func (server *SugarDB) adjustMemoryUsage(ctx context.Context) error {
 				}
 				idx--
 			}
+			verifhook.Evict(database, key, server.memUsed, server.config.MaxMemory)
 			if !server.isInCluster() {
 				// If in standalone mode, directly delete the key
 				if err := server.deleteKey(ctx, key); err != nil {
@@ -611,6 +614,7 @@ func (server *SugarDB) adjustMemoryUsage(ctx context.Context) error {
 			key := server.keysWithExpiry.keys[database][idx]
 			server.keysWithExpiry.rwMutex.RUnlock()
 
+			verifhook.Evict(database, key, server.memUsed, server.config.MaxMemory)
 			if !server.isInCluster() {
 				// If in standalone mode, directly delete the key
 				if err := server.deleteKey(ctx, key); err != nil {
